@@ -162,11 +162,12 @@ fn drain(sched: &[i64], pos: &mut usize) {
 // ------------------------------------------------------------------------------------------
 // store shapes
 // ------------------------------------------------------------------------------------------
-/// a tuple struct (accessors `field0()` / `field1()`, `Index` locators in derive(Patch)) whose
-/// third field is skipped by derive(Store) (it still occupies index 2) and patched by
-/// `PatchField for ()`
+/// a tuple struct (accessors `field0()` / `field2()`, `Index` locators in derive(Patch)) whose
+/// MIDDLE field is skipped by derive(Store): it still occupies index 1 (derive(Store) and
+/// derive(Patch) both number the fields by declaration index), and is patched by
+/// `PatchField for ()`.  Encoded as (a () b).
 #[derive(Debug, Clone, Default, PartialEq, Store, Patch)]
-pub struct Leaf(i64, i64, #[store(skip)] ());
+pub struct Leaf(i64, #[store(skip)] (), i64);
 
 /// an item of the keyed collection nested inside a keyed item
 #[derive(Debug, Clone, Default, PartialEq, Store, Patch)]
@@ -212,8 +213,12 @@ impl PatchField for Choice {
     }
 }
 
+/// the FIRST field is skipped by derive(Store): the accessors start at path segment 1.
+/// Encoded as (() x l v b t e).
 #[derive(Debug, Clone, Default, PartialEq, Store, Patch)]
 pub struct Sub {
+    #[store(skip)]
+    z: (),
     #[patch(|this, new| *this = new)]
     x: i64,
     l: Leaf,
@@ -376,18 +381,18 @@ impl Val for (i64, i64) {
 
 impl Val for Leaf {
     fn enc(&self) -> Sexp {
-        Lst(vec![self.0.enc(), self.1.enc()])
+        Lst(vec![self.0.enc(), Lst(vec![]), self.2.enc()])
     }
     fn dec(s: &Sexp) -> Self {
-        Leaf(i64::dec(s.at(0)), i64::dec(s.at(1)), ())
+        Leaf(i64::dec(s.at(0)), (), i64::dec(s.at(2)))
     }
     fn has_child(&self, st: Step) -> bool {
-        st.0 == 0 && (0..2).contains(&st.1)
+        st.0 == 0 && (st.1 == 0 || st.1 == 2)
     }
     fn child<S: FldBase<Self>>(s: &S, st: Step) -> Option<BNode> {
         match st {
             (0, 0) => node_sub(s.clone().field0()),
-            (0, 1) => node_sub(s.clone().field1()),
+            (0, 2) => node_sub(s.clone().field2()),
             _ => None,
         }
     }
@@ -494,29 +499,38 @@ impl Val for Choice {
 
 impl Val for Sub {
     fn enc(&self) -> Sexp {
-        Lst(vec![self.x.enc(), self.l.enc(), self.v.enc(), self.b.enc(), self.t.enc(), self.e.enc()])
+        Lst(vec![
+            Lst(vec![]),
+            self.x.enc(),
+            self.l.enc(),
+            self.v.enc(),
+            self.b.enc(),
+            self.t.enc(),
+            self.e.enc(),
+        ])
     }
     fn dec(s: &Sexp) -> Self {
         Sub {
-            x: i64::dec(s.at(0)),
-            l: Leaf::dec(s.at(1)),
-            v: Vec::<i64>::dec(s.at(2)),
-            b: Box::<Leaf>::dec(s.at(3)),
-            t: <(i64, i64)>::dec(s.at(4)),
-            e: Choice::dec(s.at(5)),
+            z: (),
+            x: i64::dec(s.at(1)),
+            l: Leaf::dec(s.at(2)),
+            v: Vec::<i64>::dec(s.at(3)),
+            b: Box::<Leaf>::dec(s.at(4)),
+            t: <(i64, i64)>::dec(s.at(5)),
+            e: Choice::dec(s.at(6)),
         }
     }
     fn has_child(&self, st: Step) -> bool {
-        st.0 == 0 && (0..6).contains(&st.1)
+        st.0 == 0 && (1..7).contains(&st.1)
     }
     fn child<S: FldBase<Self>>(s: &S, st: Step) -> Option<BNode> {
         match st {
-            (0, 0) => node_sub(s.clone().x()),
-            (0, 1) => node_sub(s.clone().l()),
-            (0, 2) => node_sub(s.clone().v()),
-            (0, 3) => node_sub(s.clone().b()),
-            (0, 4) => node_sub(s.clone().t()),
-            (0, 5) => node_sub(s.clone().e()),
+            (0, 1) => node_sub(s.clone().x()),
+            (0, 2) => node_sub(s.clone().l()),
+            (0, 3) => node_sub(s.clone().v()),
+            (0, 4) => node_sub(s.clone().b()),
+            (0, 5) => node_sub(s.clone().t()),
+            (0, 6) => node_sub(s.clone().e()),
             _ => None,
         }
     }
